@@ -16,6 +16,7 @@ DOC = {
                    'no_check_size, which the binary derives only from the presence of a transform (R4); any metadata error discards the whole group (R5); and the '
                    'timestamp written into the report header is sampled before the scan starts (R6).',
     'rules': {
+        'C04.M': __import__('fcverif.rules.common', fromlist=['MANDATORY_TEXT']).MANDATORY_TEXT,
         'C04.R1': 'run_dedupe: on every path to dedupe(..) modified_before is Some (defaulted from header.timestamp, never cleared)',
         'C04.R2': 'partition: every path to Ok(PartitionedFileGroup) passes was_modified(files, timestamp) unless modified_before is None; its true edge returns Err; the files checked are the files grouped',
         'C04.R3': 'was_modified: relation is mtime > after (or >=), an unreadable mtime yields true, the answer is never reset to false, all files are examined',
@@ -36,6 +37,8 @@ def run(ctx):
     r4(ctx)
     r5(ctx)
     r6(ctx)
+    from .common import run_mandatory
+    run_mandatory(ctx, 'C04')
 
 
 def r1(ctx):
